@@ -13,6 +13,8 @@ Notation toks := (toks s).
 Notation ftoks := (ftoks s).
 Notation entry := (node * nat * nat)%type.
 
+Ltac lnorm := repeat (first [rewrite <- app_assoc | progress cbn [app]]).
+
 Definition nt (l : list tok) : list tok := List.map tnorm l.
 Lemma nt_app a b : nt (a ++ b) = nt a ++ nt b.
 Proof. apply map_app. Qed.
@@ -345,7 +347,7 @@ Proof.
     rewrite (left_of_inner _ _ _ _ _ Hpf Ed), (right_of_inner _ _ _ _ _ Hpt ltac:(lia)).
     rewrite (before_p_inner _ _ _ _ _ _ _ _ _ Hpf Hpf1), (after_p_inner _ _ _ _ _ _ _ Hpt Hpt1).
     specialize (IH _ _ _ _ Ei Hdep Htf Htt Hsh).
-    unfold nt in *. rewrite !map_app. cbn [List.map]. rewrite !map_app. cbn [List.map]. rewrite IH.
+    unfold nt in *. rewrite ?map_app. cbn [List.map]. rewrite ?map_app. cbn [List.map]. rewrite IH.
     rewrite <- !app_assoc. cbn [app]. f_equal. f_equal. rewrite <- !app_assoc. reflexivity.
   - apply Nat.ltb_ge in Ed. cbn [bind] in H.
     pose proof (add_range_right _ _ _ _ H Htt) as Hl. rewrite Hl, Hc1.
@@ -354,6 +356,322 @@ Proof.
       destruct (rp_node_path _ _ _ En) as (i & o & Hp). eauto. }
     destruct Hpt as (nt_ & i_t & o_t & Hpt).
     rewrite (left_of_final _ _ _ _ _ Hpf Ed), (right_of_final _ _ _ _ _ Hpt ltac:(lia)). reflexivity.
+Qed.
+
+(* ---------------------------------------------------------------- replace_three_way *)
+(* tokens strictly between two positions (text offsets 0) given by their paths from a common node *)
+Fixpoint between (ps pe : list entry) {struct ps} : list tok :=
+  match ps, pe with
+  | (n, si, _) :: rs, (_, ei, _) :: re =>
+    match rs, re with
+    | _ :: _, (c2, _, _) :: _ =>
+      if si =? ei then between rs re
+      else after_p s rs 0 ++ [TClose] ++ ftoks (seg (node_content n) (S si) ei) ++ open_tok c2 :: before_p s re 0
+    | _ :: _, [] => after_p s rs 0 ++ [TClose] ++ ftoks (seg (node_content n) (S si) ei)
+    | [], (c2, _, _) :: _ => ftoks (seg (node_content n) si ei) ++ open_tok c2 :: before_p s re 0
+    | [], [] => ftoks (seg (node_content n) si ei)
+    end
+  | _, _ => []
+  end.
+
+Definition SameNode (a b : rpos) (d : nat) : Prop := exists n, rp_node a d = Ok n /\ rp_node b d = Ok n.
+
+Lemma TextAt_zero r : rp_text_offset r = 0 -> TextAt r.
+Proof. intros H Hn. congruence. Qed.
+
+Lemma rp_node_of_path r d n i o : path_at r d = Some (n, i, o) -> rp_node r d = Ok n /\ rp_index r d = Ok i.
+Proof. unfold rp_node, rp_index. intros ->. auto. Qed.
+
+Lemma nt_cons x l : nt (x :: l) = tnorm x :: nt l.
+Proof. reflexivity. Qed.
+
+Lemma three_way_toks : forall fuel from start end_ to depth l,
+  replace_three_way s fuel from start end_ to depth = Ok l ->
+  rp_depth start = rp_depth from -> rp_depth end_ = rp_depth to ->
+  rp_text_offset start = 0 -> rp_text_offset end_ = 0 ->
+  TextAt from -> TextAt to -> PathShape s from -> PathShape s end_ ->
+  linked (rp_path start) -> linked (rp_path end_) -> SameNode start end_ depth ->
+  nt (ftoks l) = nt (before_p s (skipn depth (rp_path from)) (rp_text_offset from)) ++
+                 nt (between (skipn depth (rp_path start)) (skipn depth (rp_path end_))) ++
+                 nt (after_p s (skipn depth (rp_path to)) (rp_text_offset to)).
+Proof.
+  induction fuel as [|fuel IH]; intros from start end_ to depth l H Hds Hde Hzs Hze Htf Htt Hshf Hshe Hls Hle Hsame;
+    [discriminate|].
+  cbn [replace_three_way] in H.
+  destruct (if depth <? rp_depth from then do n <- joinable s from start (S depth); Ok (Some n) else Ok None)
+    as [open_start|] eqn:Eos; [|discriminate]. cbn [bind] in H.
+  destruct (if depth <? rp_depth to then do n <- joinable s end_ to (S depth); Ok (Some n) else Ok None)
+    as [open_end|] eqn:Eoe; [|discriminate]. cbn [bind] in H.
+  destruct (add_range s None (Some from) depth []) as [c1|] eqn:E1; [|discriminate]. cbn [bind] in H.
+  pose proof (add_range_left _ _ _ _ E1 Htf) as Hc1. cbn [Tokens.ftoks nt List.map app] in Hc1.
+  assert (Hpf : exists n i o, path_at from depth = Some (n, i, o)).
+  { unfold add_range in E1. destruct (rp_node from depth) as [n|] eqn:En; [|discriminate].
+    destruct (rp_node_path _ _ _ En) as (i & o & Hp). eauto. }
+  destruct Hpf as (nf & i_f & o_f & Hpf).
+  match type of H with
+  | bind ?mid _ = _ => destruct mid as [c2|] eqn:E2; [|discriminate]
+  end. cbn [bind] in H.
+  pose proof (add_range_right _ _ _ _ H Htt) as Hl.
+  assert (Hpt : exists n i o, path_at to depth = Some (n, i, o)).
+  { unfold add_range in H. destruct (rp_node to depth) as [n|] eqn:En; [|discriminate].
+    destruct (rp_node_path _ _ _ En) as (i & o & Hp). eauto. }
+  destruct Hpt as (nt_ & i_t & o_t & Hpt).
+  destruct Hsame as (ns & Hns & Hne).
+  destruct (rp_node_path _ _ _ Hns) as (si & o_s & Hps). destruct (rp_node_path _ _ _ Hne) as (ei & o_e & Hpe).
+  pose proof (TextAt_zero _ Hzs) as Hts. pose proof (TextAt_zero _ Hze) as Hte.
+  rewrite Hl. clear Hl H.
+  (* the open nodes *)
+  assert (Hos : match open_start with
+                | Some os => depth < rp_depth from /\ exists i o, path_at from (S depth) = Some (os, i, o) /\
+                             nonleaf s os /\ is_elem os /\ exists x, path_at start (S depth) = Some x
+                | None => rp_depth from <= depth end).
+  { destruct (depth <? rp_depth from) eqn:Ed.
+    - apply Nat.ltb_lt in Ed. destruct (joinable s from start (S depth)) as [n|] eqn:Ej; [|discriminate].
+      cbn [bind] in Eos. inversion Eos; subst. destruct (joinable_node _ _ _ _ Ej) as (Hn & (a & Ha)).
+      destruct (rp_node_path _ _ _ Hn) as (i & o & Hp). destruct (Hshf _ _ Hn) as (Hel & Hnl).
+      destruct (rp_node_path _ _ _ Ha) as (i' & o' & Hp'). split; [exact Ed|]. exists i, o. eauto 8 using Nat.lt_0_succ.
+    - apply Nat.ltb_ge in Ed. inversion Eos; subst. exact Ed. }
+  assert (Hoe : match open_end with
+                | Some oe => depth < rp_depth to /\ exists i o, path_at end_ (S depth) = Some (oe, i, o) /\
+                             nonleaf s oe /\ is_elem oe /\ exists x, path_at to (S depth) = Some x
+                | None => rp_depth to <= depth end).
+  { destruct (depth <? rp_depth to) eqn:Ed.
+    - apply Nat.ltb_lt in Ed. destruct (joinable s end_ to (S depth)) as [n|] eqn:Ej; [|discriminate].
+      cbn [bind] in Eoe. inversion Eoe; subst. destruct (joinable_node _ _ _ _ Ej) as (Hn & (a & Ha)).
+      destruct (rp_node_path _ _ _ Hn) as (i & o & Hp). destruct (Hshe _ _ Hn) as (Hel & Hnl).
+      destruct (rp_node_path _ _ _ Ha) as (i' & o' & Hp'). split; [exact Ed|]. exists i, o. eauto 8 using Nat.lt_0_succ.
+    - apply Nat.ltb_ge in Ed. inversion Eoe; subst. exact Ed. }
+  clear Eos Eoe.
+  rewrite (skipn_path _ _ _ Hps), (skipn_path _ _ _ Hpe). cbn [between].
+  destruct open_start as [os|]; destruct open_end as [oe|].
+  - (* both sides open *)
+    destruct Hos as (Hdf & i1 & o1 & Hpf1 & Hnl1 & Hel1 & (xs & Hps1)).
+    destruct Hoe as (Hdt & i2 & o2 & Hpe1 & Hnl2 & Hel2 & (xt & Hpt1)).
+    rewrite (left_of_inner _ _ _ _ _ Hpf Hdf) in Hc1.
+    rewrite (right_of_inner _ _ _ _ _ Hpt Hdt).
+    rewrite (before_p_inner _ _ _ _ _ _ _ _ _ Hpf Hpf1), (after_p_inner _ _ _ _ _ _ _ Hpt Hpt1).
+    rewrite (skipn_path _ _ _ Hps1), (skipn_path _ _ _ Hpe1). rewrite <- (skipn_path _ _ _ Hps1), <- (skipn_path _ _ _ Hpe1).
+    destruct (proj2 (rp_node_of_path _ _ _ _ _ Hps)). destruct (proj2 (rp_node_of_path _ _ _ _ _ Hpe)).
+    rewrite (proj2 (rp_node_of_path _ _ _ _ _ Hps)), (proj2 (rp_node_of_path _ _ _ _ _ Hpe)) in E2. cbn [bind] in E2.
+    destruct (si =? ei) eqn:Esame.
+    + destruct (check_join s os oe); [|discriminate]. cbn [bind] in E2.
+      destruct (replace_three_way s fuel from start end_ to (S depth)) as [inner|] eqn:Ei; [|discriminate].
+      cbn [bind] in E2. destruct (close s os inner) as [cl|] eqn:Ec; [|discriminate]. cbn [bind] in E2.
+      inversion E2; subst c2. clear E2.
+      pose proof (close_toks _ _ _ Ec Hnl1 Hel1) as Hcl.
+      assert (Hsame' : SameNode start end_ (S depth)).
+      { apply Nat.eqb_eq in Esame. subst ei. destruct xs as [[cs_ is_] os_]. 
+        pose proof (Hls _ _ _ _ _ _ _ Hps Hps1) as Hch1. pose proof (Hle _ _ _ _ _ _ _ Hpe Hpe1) as Hch2.
+        rewrite Hch1 in Hch2. inversion Hch2; subst. exists oe.
+        split; [apply (rp_node_of_path _ _ _ _ _ Hps1)|apply (rp_node_of_path _ _ _ _ _ Hpe1)]. }
+      specialize (IH _ _ _ _ _ _ Ei Hds Hde Hzs Hze Htf Htt Hshf Hshe Hls Hle Hsame').
+      rewrite add_node_toks, Hc1, Hcl. unfold nt in *. rewrite ?map_app. cbn [List.map]. rewrite ?map_app. cbn [List.map].
+      rewrite IH. rewrite ?map_app. lnorm. reflexivity.
+    + destruct (replace_two_way s fuel from start (S depth)) as [inner|] eqn:Ei; [|discriminate].
+      cbn [bind] in E2. destruct (close s os inner) as [cl|] eqn:Ec; [|discriminate]. cbn [bind] in E2.
+      destruct (add_range s (Some start) (Some end_) depth (add_node cl c1)) as [c'|] eqn:Ea; [|discriminate].
+      cbn [bind] in E2.
+      destruct (replace_two_way s fuel end_ to (S depth)) as [inner2|] eqn:Ei2; [|discriminate].
+      cbn [bind] in E2. destruct (close s oe inner2) as [cl2|] eqn:Ec2; [|discriminate]. cbn [bind] in E2.
+      inversion E2; subst c2. clear E2.
+      pose proof (close_toks _ _ _ Ec Hnl1 Hel1) as Hcl. pose proof (close_toks _ _ _ Ec2 Hnl2 Hel2) as Hcl2.
+      pose proof (two_way_toks _ _ _ _ _ Ei (eq_sym Hds) Htf Hts Hshf) as Hi1.
+      pose proof (two_way_toks _ _ _ _ _ Ei2 Hde Hte Htt Hshe) as Hi2.
+      destruct (add_range_mid _ _ _ _ _ Ea Hzs Hze) as (n' & ei' & o' & si' & Hpe' & Hsi' & Hmid).
+      rewrite Hpe in Hpe'. inversion Hpe'; subst n' ei' o'.
+      rewrite (proj2 (rp_node_of_path _ _ _ _ _ Hps)) in Hsi'. inversion Hsi'; subst si'.
+      replace (depth <? rp_depth start) with true in Hmid by (symmetry; apply Nat.ltb_lt; lia).
+      rewrite Hzs in Hi1. rewrite Hze in Hi2.
+      rewrite add_node_toks, Hmid, add_node_toks, Hc1, Hcl, Hcl2.
+      unfold nt in *. rewrite ?map_app. cbn [List.map]. rewrite ?map_app. cbn [List.map].
+      rewrite Hi1, Hi2. rewrite ?map_app. cbn [List.map]. lnorm. reflexivity.
+  - (* only the start side is open *)
+    destruct Hos as (Hdf & i1 & o1 & Hpf1 & Hnl1 & Hel1 & (xs & Hps1)).
+    rewrite (left_of_inner _ _ _ _ _ Hpf Hdf) in Hc1.
+    rewrite (right_of_final _ _ _ _ _ Hpt Hoe).
+    rewrite (before_p_inner _ _ _ _ _ _ _ _ _ Hpf Hpf1).
+    rewrite (skipn_path _ _ _ Hps1). rewrite <- (skipn_path _ _ _ Hps1).
+    rewrite (skipn_S_nil end_ depth) by lia.
+    destruct (replace_two_way s fuel from start (S depth)) as [inner|] eqn:Ei; [|discriminate].
+    cbn [bind] in E2. destruct (close s os inner) as [cl|] eqn:Ec; [|discriminate]. cbn [bind] in E2.
+    destruct (add_range s (Some start) (Some end_) depth (add_node cl c1)) as [c''|] eqn:Ea; [|discriminate].
+    cbn [bind] in E2. inversion E2; subst c2. clear E2.
+    pose proof (close_toks _ _ _ Ec Hnl1 Hel1) as Hcl.
+    pose proof (two_way_toks _ _ _ _ _ Ei (eq_sym Hds) Htf Hts Hshf) as Hi1. rewrite Hzs in Hi1.
+    destruct (add_range_mid _ _ _ _ _ Ea Hzs Hze) as (n' & ei' & o' & si' & Hpe' & Hsi' & Hmid).
+    rewrite Hpe in Hpe'. inversion Hpe'; subst n' ei' o'.
+    rewrite (proj2 (rp_node_of_path _ _ _ _ _ Hps)) in Hsi'. inversion Hsi'; subst si'.
+    replace (depth <? rp_depth start) with true in Hmid by (symmetry; apply Nat.ltb_lt; lia).
+    rewrite Hmid, add_node_toks, Hc1, Hcl.
+    unfold nt in *. rewrite ?map_app. cbn [List.map]. rewrite ?map_app. cbn [List.map].
+    rewrite Hi1. rewrite ?map_app. cbn [List.map]. lnorm. reflexivity.
+  - (* only the end side is open *)
+    destruct Hoe as (Hdt & i2 & o2 & Hpe1 & Hnl2 & Hel2 & (xt & Hpt1)).
+    rewrite (left_of_final _ _ _ _ _ Hpf Hos) in Hc1.
+    rewrite (right_of_inner _ _ _ _ _ Hpt Hdt).
+    rewrite (after_p_inner _ _ _ _ _ _ _ Hpt Hpt1).
+    rewrite (skipn_path _ _ _ Hpe1). rewrite <- (skipn_path _ _ _ Hpe1).
+    rewrite (skipn_S_nil start depth) by lia.
+    cbn [bind] in E2.
+    destruct (add_range s (Some start) (Some end_) depth c1) as [c''|] eqn:Ea; [|discriminate].
+    cbn [bind] in E2.
+    destruct (replace_two_way s fuel end_ to (S depth)) as [inner2|] eqn:Ei2; [|discriminate].
+    cbn [bind] in E2. destruct (close s oe inner2) as [cl2|] eqn:Ec2; [|discriminate]. cbn [bind] in E2.
+    inversion E2; subst c2. clear E2.
+    pose proof (close_toks _ _ _ Ec2 Hnl2 Hel2) as Hcl2.
+    pose proof (two_way_toks _ _ _ _ _ Ei2 Hde Hte Htt Hshe) as Hi2. rewrite Hze in Hi2.
+    destruct (add_range_mid _ _ _ _ _ Ea Hzs Hze) as (n' & ei' & o' & si' & Hpe' & Hsi' & Hmid).
+    rewrite Hpe in Hpe'. inversion Hpe'; subst n' ei' o'.
+    rewrite (proj2 (rp_node_of_path _ _ _ _ _ Hps)) in Hsi'. inversion Hsi'; subst si'.
+    replace (depth <? rp_depth start) with false in Hmid by (symmetry; apply Nat.ltb_ge; lia).
+    rewrite add_node_toks, Hmid, Hc1, Hcl2.
+    unfold nt in *. rewrite ?map_app. cbn [List.map]. rewrite ?map_app. cbn [List.map].
+    rewrite Hi2. rewrite ?map_app. cbn [List.map]. lnorm. reflexivity.
+  - (* neither side is open *)
+    rewrite (left_of_final _ _ _ _ _ Hpf Hos) in Hc1.
+    rewrite (right_of_final _ _ _ _ _ Hpt Hoe).
+    rewrite (skipn_S_nil start depth) by lia. rewrite (skipn_S_nil end_ depth) by lia.
+    cbn [bind] in E2.
+    destruct (add_range s (Some start) (Some end_) depth c1) as [c''|] eqn:Ea; [|discriminate].
+    cbn [bind] in E2. inversion E2; subst c2. clear E2.
+    destruct (add_range_mid _ _ _ _ _ Ea Hzs Hze) as (n' & ei' & o' & si' & Hpe' & Hsi' & Hmid).
+    rewrite Hpe in Hpe'. inversion Hpe'; subst n' ei' o'.
+    rewrite (proj2 (rp_node_of_path _ _ _ _ _ Hps)) in Hsi'. inversion Hsi'; subst si'.
+    replace (depth <? rp_depth start) with false in Hmid by (symmetry; apply Nat.ltb_ge; lia).
+    rewrite Hmid, Hc1. lnorm. reflexivity.
+Qed.
+
+(* ---------------------------------------------------------------- paths as structures *)
+Inductive IsPath : node -> list entry -> Prop :=
+| IP_last n i o : IsPath n [(n, i, o)]
+| IP_cons n i o c rest :
+    child_at n i = Some c -> nonleaf s c -> is_elem c -> IsPath c rest -> IsPath n ((n, i, o) :: rest).
+
+Lemma IsPath_head n p : IsPath n p -> exists i o rest, p = (n, i, o) :: rest.
+Proof. intros H; inversion H; subst; eauto. Qed.
+
+Lemma IsPath_of_linked : forall p n i o rest,
+  p = (n, i, o) :: rest -> linked p ->
+  (forall d x i o, nth_error p d = Some (x, i, o) -> is_elem x /\ (0 < d -> nonleaf s x)) ->
+  IsPath n p.
+Proof.
+  induction p as [|e p IH]; intros n i o rest Hp Hl Hsh; [discriminate|]. inversion Hp; subst e p. clear Hp.
+  destruct rest as [|[[c i'] o'] rest']; [apply IP_last|].
+  assert (Hc : child_at n i = Some c) by (eapply (Hl 0); reflexivity).
+  destruct (Hsh 1 c i' o' eq_refl) as [Hel Hnl].
+  apply (IP_cons n i o c); [exact Hc|apply Hnl; lia|exact Hel|]. eapply (IH c i' o' rest' eq_refl).
+  - intros d n1 i1 o1 n2 i2 o2 H1 H2. eapply (Hl (S d)); eauto.
+  - intros d x i0 o0 Hx. destruct (Hsh (S d) x i0 o0 Hx) as [He Hn]. split; [exact He|]. intros _. apply Hn. lia.
+Qed.
+
+Lemma ftoks_split_at l i (c : node) :
+  nth_error l i = Some c -> ftoks l = ftoks (firstn i l) ++ toks c ++ ftoks (skipn (S i) l).
+Proof.
+  intros H. rewrite <- (firstn_skipn i l) at 1. rewrite ftoks_app, (skipn_nth_cons _ _ _ H). reflexivity.
+Qed.
+
+Lemma toks_nonleaf c : nonleaf s c -> is_elem c -> toks c = open_tok c :: ftoks (node_content c) ++ [TClose].
+Proof.
+  intros Hn (ty & a & m & cs & ->). rewrite toks_elem. unfold nonleaf in Hn. cbn [node_ty] in Hn. rewrite Hn. reflexivity.
+Qed.
+
+(* the tokens on the two sides of a path make up the content of its head node *)
+Lemma path_split : forall n p toff, IsPath n p ->
+  before_p s p toff ++ after_p s p toff = ftoks (node_content n).
+Proof.
+  intros n p toff H. induction H as [n i o|n i o c rest Hc Hnl Hel Hr IH].
+  - cbn [before_p after_p]. destruct (nth_error (node_content n) i) as [c|] eqn:E.
+    + rewrite (ftoks_split_at _ _ _ E). rewrite <- app_assoc. f_equal. rewrite app_assoc, firstn_skipn. reflexivity.
+    + apply nth_error_None in E. rewrite firstn_all2 by lia. rewrite !app_nil_r. reflexivity.
+  - destruct (IsPath_head _ _ Hr) as (i' & o' & rest' & ->).
+    cbn [before_p after_p]. cbn [before_p after_p] in IH.
+    unfold child_at in Hc. rewrite (ftoks_split_at _ _ _ Hc), (toks_nonleaf _ Hnl Hel), <- IH.
+    lnorm. reflexivity.
+Qed.
+
+(* the first path is not to the right of the second *)
+Fixpoint ple (ps pe : list entry) {struct ps} : Prop :=
+  match ps, pe with
+  | (_, si, _) :: rs, (_, ei, _) :: re =>
+    match rs, re with
+    | [], _ => si <= ei
+    | _ :: _, [] => si < ei
+    | _ :: _, _ :: _ => si < ei \/ (si = ei /\ ple rs re)
+    end
+  | _, _ => True
+  end.
+
+Lemma firstn_S_nth {A} (l : list A) : forall i c, nth_error l i = Some c -> firstn (S i) l = firstn i l ++ [c].
+Proof.
+  induction l as [|x l IH]; intros [|i] c H; try discriminate.
+  - inversion H; reflexivity.
+  - cbn [nth_error] in H. cbn [firstn app]. f_equal. apply IH. exact H.
+Qed.
+
+Lemma firstn_seg {A} (l : list A) a b : a <= b -> firstn b l = firstn a l ++ seg l a b.
+Proof.
+  intros H. unfold seg. rewrite <- (firstn_skipn a (firstn b l)). f_equal.
+  - rewrite firstn_firstn. f_equal. lia.
+  - rewrite skipn_firstn_comm. reflexivity.
+Qed.
+
+Lemma before_p_one n i o : before_p s [(n, i, o)] 0 = ftoks (firstn i (node_content n)).
+Proof.
+  cbn [before_p]. destruct (nth_error (node_content n) i); cbn [firstn]; apply app_nil_r.
+Qed.
+Lemma before_p_two n i o c i' o' r t :
+  before_p s ((n, i, o) :: (c, i', o') :: r) t =
+  ftoks (firstn i (node_content n)) ++ open_tok c :: before_p s ((c, i', o') :: r) t.
+Proof. reflexivity. Qed.
+Lemma between_11 n si so n' ei eo : between [(n, si, so)] [(n', ei, eo)] = ftoks (seg (node_content n) si ei).
+Proof. reflexivity. Qed.
+Lemma between_12 n si so n' ei eo c2 i2 o2 re :
+  between [(n, si, so)] ((n', ei, eo) :: (c2, i2, o2) :: re) =
+  ftoks (seg (node_content n) si ei) ++ open_tok c2 :: before_p s ((c2, i2, o2) :: re) 0.
+Proof. reflexivity. Qed.
+Lemma between_21 n si so e1 rs n' ei eo :
+  between ((n, si, so) :: e1 :: rs) [(n', ei, eo)] =
+  after_p s (e1 :: rs) 0 ++ [TClose] ++ ftoks (seg (node_content n) (S si) ei).
+Proof. reflexivity. Qed.
+Lemma between_22 n si so e1 rs n' ei eo c2 i2 o2 re :
+  between ((n, si, so) :: e1 :: rs) ((n', ei, eo) :: (c2, i2, o2) :: re) =
+  if si =? ei then between (e1 :: rs) ((c2, i2, o2) :: re)
+  else after_p s (e1 :: rs) 0 ++ [TClose] ++ ftoks (seg (node_content n) (S si) ei) ++
+       open_tok c2 :: before_p s ((c2, i2, o2) :: re) 0.
+Proof. reflexivity. Qed.
+
+Lemma ftoks_upto_child l si ei (c : node) :
+  nth_error l si = Some c -> si < ei ->
+  ftoks (firstn ei l) = ftoks (firstn si l) ++ toks c ++ ftoks (seg l (S si) ei).
+Proof.
+  intros Hc Hlt. rewrite (firstn_seg l (S si) ei) by lia. rewrite ftoks_app, (firstn_S_nth _ _ _ Hc), ftoks_app.
+  cbn [Tokens.ftoks]. rewrite app_nil_r, <- app_assoc. reflexivity.
+Qed.
+
+Lemma before_between : forall n ps pe, IsPath n ps -> IsPath n pe -> ple ps pe ->
+  before_p s pe 0 = before_p s ps 0 ++ between ps pe.
+Proof.
+  intros n ps pe Hs. revert pe. induction Hs as [n si so|n si so c rs Hc Hnl Hel Hr IH]; intros pe He Hle.
+  - (* the first position ends here *)
+    inversion He as [n' ei eo|n' ei eo c2 re Hc2 Hnl2 Hel2 Hr2]; subst.
+    + cbn [ple] in Hle. rewrite between_11, !before_p_one, <- ftoks_app, <- firstn_seg by exact Hle. reflexivity.
+    + destruct (IsPath_head _ _ Hr2) as (i' & o' & rest' & ->). cbn [ple] in Hle.
+      rewrite between_12, before_p_two, before_p_one, app_assoc, <- ftoks_app, <- firstn_seg by exact Hle. reflexivity.
+  - (* the first position goes deeper *)
+    destruct (IsPath_head _ _ Hr) as (i1 & o1 & rest1 & Hrs). unfold child_at in Hc.
+    inversion He as [n' ei eo|n' ei eo c2 re Hc2 Hnl2 Hel2 Hr2]; subst pe.
+    + subst. cbn [ple] in Hle.
+      rewrite between_21, before_p_two, before_p_one, (ftoks_upto_child _ _ _ _ Hc Hle).
+      rewrite (toks_nonleaf _ Hnl Hel), <- (path_split _ _ 0 Hr). lnorm. reflexivity.
+    + subst. destruct (IsPath_head _ _ Hr2) as (i2 & o2 & rest2 & Hre). subst re. cbn [ple] in Hle.
+      rewrite between_22, !before_p_two.
+      destruct (si =? ei) eqn:Esame.
+      * apply Nat.eqb_eq in Esame. subst ei. destruct Hle as [Hlt|[_ Hle]]; [lia|].
+        unfold child_at in Hc2. rewrite Hc in Hc2. inversion Hc2; subst c2.
+        rewrite (IH _ Hr2 Hle). lnorm. reflexivity.
+      * apply Nat.eqb_neq in Esame. destruct Hle as [Hlt|[Heq _]]; [|lia].
+        rewrite (ftoks_upto_child _ _ _ _ Hc Hlt).
+        rewrite (toks_nonleaf _ Hnl Hel), <- (path_split _ _ 0 Hr). lnorm. reflexivity.
 Qed.
 
 End WithSchema.
